@@ -451,6 +451,8 @@ func (d *Driver) exec(st *Step, g string) {
 		switch d.sc.Conn.Storage {
 		case "payload":
 			opts = append(opts, iscp.VerifWithSentStorage(iscp.VerifNewInmemSentStorage()))
+		case "logged":
+			opts = append(opts, iscp.VerifWithSentStorage(&loggedStorage{inner: iscp.VerifNewInmemSentStorage(), d: d}))
 		case "nopayload":
 			opts = append(opts, iscp.VerifWithSentStorage(iscp.VerifNewInmemSentStorageNoPayload()))
 		}
